@@ -40,7 +40,7 @@ CHECKS["C08"] = dict(engine="E1 symsem (diffcheck)", category=TV, technique=RVR 
     note="Histories are seeded samples (3 quick / 24 thorough per skeleton plus two fixed shapes). Calls that raise are outside the histories (an engine object is not reusable after it raised).")
 CHECKS["C25"] = dict(engine="E1 symsem (diffcheck) + E3 tv", category=TV, technique=RVR + "; DIMACS text re-read and proved equivalent to the internal CNF by SAT",
     text="Original program vs to_prolog() export (LogicFormula and LogicDAG, with and without evidence propagation) re-parsed by the real parser: z3 proves the query functions identical. CNF.to_dimacs() output is parsed by an independent reader and proved equivalent (all assignments) to CNF._clauses + constraints, header counts equal.",
-    note="Export options as the to_prolog docstring requires. One known finding (aux-name clash for negated goals) is matched narrowly by inspecting the ground program for duplicate aux names.")
+    note="Export options as the to_prolog docstring requires. Known findings are matched on the failing export itself: duplicate aux_N names; an evidence atom that is an AD head printed as a fact under propagate_evidence (causal test: deleting those fact lines restores agreement); AssertionError call site in extract_relevant.")
 CHECKS["C26"] = dict(engine="E1 symsem", category=TV, technique="symbolic semiring registered in ProbLog's semiring registry so subquery/2,3 binds P to a z3 term; NRA identity with the top-level run",
     text="A deterministic wrapper rule calls subquery(G,P) / subquery(G,P,Ev); with the symbolic probability semiring registered as 'prob' the answer term carries P as a rational function, which z3 proves equal to the top-level (conditional) probability for all parameter values.",
     note="Skeletons enumerated; evidence lists are the skeleton's own evidence. 5-argument form not exercised.")
@@ -51,13 +51,13 @@ CHECKS["C03"] = dict(engine="E1 symsem (diffcheck)", category=TV, technique=RVR 
     text="Default buffered engine vs the same engine with a FIFO that permutes each batch of sibling 'e' messages: the two results are rational functions of symbolic weights and z3 proves them identical, so two schedules differing in a single world are told apart. Accept/reject decisions and instance sets are compared too.",
     note="The schedule quantifier is a seeded sample (4 quick / 40 thorough per skeleton), not solver-decided. No repo hook: harness-side engine subclass.")
 CHECKS["C04"] = dict(engine="E1 symsem (diffcheck)", category=TV, technique=RVR + "; configurations = unbuffered, rc_first, seeded RandomOrderQueue from engine.rst",
-    text="Default engine vs StackBasedEngine(unbuffered=True), (unbuffered=True, rc_first=True) and the documented random e-message order: z3 proves identity of the query functions; accept/reject compared. Three classes of genuine disagreement are recorded as known findings (matched by engine mode + exception type + call site).",
+    text="Default engine vs StackBasedEngine(unbuffered=True), (unbuffered=True, rc_first=True) and the documented random e-message order: z3 proves identity of the query functions; the accept/reject decision is compared (two runs that both raise agree, as the property states the decision, not the error). Genuine disagreements of the unbuffered modes are recorded as known findings (matched by engine mode + exception type + raising call site, independent of the generator seed).",
     note="Random orders are seeded samples. Known findings suppress only the listed (mode, exception, call-site) triples; any value disagreement is still a violation.")
 CHECKS["C02"] = dict(engine="E2 refsem (alternating fixpoint in z3) + E1", category=TV,
     technique="solver classification of each skeleton (z3 over the unrolled alternating-fixpoint WFM: is a queried atom undefined in some world?) + real run; must-answer programs get C01's obligations",
     text="must-answer iff the FULL ground dependency graph has no cycle through negation (then NegativeCycle must not be raised and C01's solver-decided obligations hold); must-reject iff z3 finds a legal world in which a query/evidence atom is undefined in the well-founded model (then a GroundingError must be raised, never numbers); everything else asserts nothing.",
-    note="must-reject is deliberately narrower than the property's wording so that a correct tree is never flagged. Skeletons: hand corpus + seeded negative-loop family.")
+    note="must-reject is deliberately narrower than the property's wording so that a correct tree is never flagged. Skeletons: hand corpus + seeded negative-loop family. One known finding, keyed by the engine call site observed in-process (negated goal served from the cache while still active), not by program.")
 CHECKS["C05"] = dict(engine="E1 symsem (diffcheck)", category=TV, technique=RVR + "; semiring variants incl. SemiringSymbolic expression parsed back into z3 terms",
     text="ddnnf vs the default evaluatable choice; probability semiring vs NSP variant, a user-defined probability semiring built on the base-class defaults (and its NSP variant), and SemiringSymbolic whose output expression is parsed back and proved equal for all parameter values. Log-probability is anchored concretely at an interior point.",
     note="NOT covered here: SDD, SDDExplicit, ForwardSDD, ForwardBDD, BDD (PySDD not installed, is_available() False). Log-prob algebra for all values is C12.")
-NOT_APPLICABLE = {}
+NOT_APPLICABLE = {"C30": "check file exists (props/c30.py) but its triage is unfinished: it reports violations on the unchanged tree that have not been classified, so the property is not claimed"}
